@@ -1450,12 +1450,12 @@ def transform(fn, proceed, to_instrument=True, set_conformer=True):
             None,
             tuple(cells[name] for name in template.__code__.co_freevars),
         )
-        actual_fn.__qualname__ = template.__qualname__
         actual_fn.__doc__ = template.__doc__
         actual_fn.__module__ = template.__module__
     else:
         actual_fn = scratch[fname]
 
+    actual_fn.__qualname__ = fn.__qualname__
     actual_fn.__defaults__ = fn.__defaults__
     actual_fn.__kwdefaults__ = fn.__kwdefaults__
     actual_fn.__annotations__ = dict(fn.__annotations__)
